@@ -19,7 +19,7 @@ variable {K V : Type} [DecidableEq K]
 The right-hand sides are regenerated from the Go source on every check. -/
 
 theorem skel_newOnceConstructor : Gen.SyncC17.newOnceConstructor = Expected.newOnceConstructor := by decide
-theorem skel_onceGet : Gen.SyncC17.onceGet = Expected.onceGet := by decide
+theorem skel_onceGet : Gen.SyncC17.onceGet = Expected.onceGet := by decide +kernel
 theorem skel_newChanSemaphore : Gen.SyncC17.newChanSemaphore = Expected.newChanSemaphore := by decide
 theorem skel_semaAcquire : Gen.SyncC17.semaAcquire = Expected.semaAcquire := by decide
 theorem skel_semaRelease : Gen.SyncC17.semaRelease = Expected.semaRelease := by decide
